@@ -15,7 +15,7 @@ for pid in sorted(props.PROPS):
         "evidence_file": "/verif/evidence/%s.json" % pid,
         "replay_cmd_template": "./replay %s {path}" % pid,
         "engine": "+".join(e["kind"] for e in s["engines"]),
-        "level_claimed": {"category": s.get("level", "other"), "text": s.get("level_text", ""), "design_ref": "DESIGN.md §3 " + pid},
+        "level_claimed": {"category": s.get("level", "other"), "text": s.get("level_text", ""), "design_ref": "DESIGN.md §4 (row " + pid + "), §6"},
         "level_note": s.get("level_note", ""),
         "technique": s.get("technique", ""),
     })
